@@ -336,3 +336,20 @@ Proof.
   pose proof (decode_is_buffer_independent (api_new (mkcfg ck ex k1) bs) (api_new (mkcfg ck ex k2) bs) eq_refl eq_refl eq_refl eq_refl eq_refl eq_refl H1 H2 Hs) as H.
   destruct (snd (api_step (api_new (mkcfg ck ex k1) bs) ADecode)), (snd (api_step (api_new (mkcfg ck ex k2) bs) ADecode)); try exact H. apply H.
 Qed.
+
+(* the decoder model's read layer meets the same specification as readBuffer.ReadN over an arbitrary chunking reader
+   (ReadBufProofs.read_n_spec): the next n bytes of the stream, or an end-of-stream error iff fewer remain *)
+Theorem read_raw_is_stream_read c s n : bufok s -> n <= 765 -> 765 <= c_bufsize c ->
+  match read_raw c s n with
+  | Ok (b, s') => n <= len (s_rest s) /\ b = take n (s_rest s) /\ s_rest s' = drop n (s_rest s) /\ bufok s'
+  | Err e => len (s_rest s) < n /\ (e = E_EOF \/ e = E_UnexpectedEOF)
+  | _ => False
+  end.
+Proof.
+  intros Hb Hn Hc. destruct (N.le_gt_cases n (len (s_rest s))) as [Hle | Hgt].
+  - destruct (read_raw_ok c s n Hb Hn Hc Hle) as (s' & E & R & B & _). rewrite E. repeat split; assumption.
+  - unfold read_raw, bufok in *.
+    replace (n <=? s_buf s) with false by (symmetry; apply N.leb_gt; lia).
+    replace (n <=? s_buf s + N.min (len (s_rest s) - s_buf s) (c_bufsize c)) with false by (symmetry; apply N.leb_gt; lia).
+    split; [exact Hgt|]. destruct (N.min (len (s_rest s) - s_buf s) (c_bufsize c) =? 0); [left|right]; reflexivity.
+Qed.
